@@ -115,6 +115,31 @@ impl Property for C03 {
             _ => tokens::CAP_ALL,
         };
         ex.stats.bump(&format!("c03.population.{kind}"));
+        // public-handler view with sparse element handlers: the parser stays in tag-scan mode and
+        // switches to the lexer only for the selected tags (what real rewriters do)
+        {
+            let lower = String::from_utf8_lossy(&doc).to_ascii_lowercase();
+            let mut names: Vec<&str> = ["b", "i", "a", "p", "span", "script", "style", "title", "u", "em", "g", "path", "mi", "mtext", "desc", "li", "td", "div", "textarea"]
+                .into_iter()
+                .filter(|n| lower.contains(&format!("<{n}")))
+                .collect();
+            if !names.is_empty() {
+                rng.shuffle(&mut names);
+                names.truncate(rng.range(1, 3));
+                let mut sc = Scenario::new(doc.clone());
+                sc.strict = true;
+                for n in &names {
+                    sc.handlers.push(wl::el_observer(n));
+                }
+                let kind = rng.pick(wl::SCHED_KINDS);
+                sc.cuts = if rng.bool() { vec![] } else { wl::schedule(rng, &doc, kind) };
+                let mut c = Case::of(sc);
+                c.mode = "sparse".into();
+                if !ex.check(c) {
+                    return;
+                }
+            }
+        }
         for k in 0..3 {
             let mut sc = Scenario::new(doc.clone());
             sc.strict = true;
@@ -136,6 +161,9 @@ impl Property for C03 {
 
     fn check(&self, case: &Case, st: &mut Stats) -> CheckResult {
         let sc = &case.sc;
+        if case.mode == "sparse" {
+            return self.check_sparse(case, st);
+        }
         let flags: u8 = case.mode.parse().unwrap_or(tokens::CAP_ALL);
         let Ok(text) = std::str::from_utf8(&sc.doc) else {
             return Err(HarnessError("C03 documents must be valid UTF-8".into()));
@@ -176,6 +204,79 @@ impl Property for C03 {
                 sc.cuts,
                 brief(&got, i),
                 brief(&reference, i),
+                show(&sc.doc)
+            );
+            if let Some(p) = lower.find("<col") {
+                if TEXT_SWITCHING.iter().any(|t| lower[p..].contains(&format!("<{t}"))) {
+                    return Ok(Err(Fail::known("C03.tokens", detail, "text_mode_tag_ignored_in_column_group")));
+                }
+            }
+            if lower.contains("<svg/>") || lower.contains("<math/>") {
+                return Ok(Err(Fail::known("C03.tokens", detail, "self_closing_foreign_root_enters_foreign_content")));
+            }
+            return Ok(Err(Fail::new("C03.tokens", detail)));
+        }
+        Ok(Ok(()))
+    }
+}
+
+impl C03 {
+    /// Sparse element handlers through the public API: the start tags they see (name, attributes,
+    /// self-closing flag) must be exactly the reference tokenizer's start tags with those names.
+    fn check_sparse(&self, case: &Case, st: &mut Stats) -> CheckResult {
+        use crate::history::{Outcome, Unit};
+        use crate::refmodel::h5e_decoder::{decode_attr_value, to_null_decoded};
+        let sc = &case.sc;
+        let Ok(text) = std::str::from_utf8(&sc.doc) else {
+            return Err(HarnessError("C03 documents must be valid UTF-8".into()));
+        };
+        let names: Vec<String> = sc.handlers.iter().filter_map(|h| h.selector().map(str::to_string)).collect();
+        let h = crate::driver::run(sc).map_err(HarnessError)?;
+        st.absorb_history(&h);
+        st.bump("c03.sparse_handler_runs");
+        match &h.outcome {
+            Outcome::Panic(m) => return Ok(Err(Fail::new("C03.no_result", format!("panic: {m}")))),
+            Outcome::Err(ErrKind::Ambiguity, _) => {
+                let ns = tokens::capture(&sc.doc, "utf-8", false, &[], tokens::CAP_ALL);
+                if !ambiguity_necessary_condition(&ns.toks) {
+                    return Ok(Err(Fail::new("C03.fail_only_if", format!("ParsingAmbiguity without a text-mode-switching start tag after <select>/<frameset>; doc={}", show(&sc.doc)))));
+                }
+                return Ok(Ok(()));
+            }
+            Outcome::Err(k, _) => return Ok(Err(Fail::new("C03.no_result", format!("strict run failed with {k:?}")))),
+            _ => {}
+        }
+        let mut got: Vec<(String, Vec<(String, String)>, bool)> = vec![];
+        for (_, _, u, _) in h.handler_events() {
+            if let Unit::Element { name, attrs, self_closing, .. } = u {
+                let mut av: Vec<(String, String)> = vec![];
+                for a in attrs {
+                    let k = to_null_decoded(&a.name);
+                    if !av.iter().any(|(x, _)| *x == k) {
+                        av.push((k, decode_attr_value(&a.value)));
+                    }
+                }
+                av.sort();
+                got.push((to_null_decoded(name), av, *self_closing));
+            }
+        }
+        // an element matched by two handlers is reported twice: deduplicate consecutive identical
+        // reports is not needed — handlers have distinct names
+        let want: Vec<(String, Vec<(String, String)>, bool)> = h5e::reference(text)
+            .into_iter()
+            .filter_map(|t| match t {
+                RTok::Start { name, attrs, self_closing } if names.contains(&name) => Some((name, attrs, self_closing)),
+                _ => None,
+            })
+            .collect();
+        if got != want {
+            let i = got.iter().zip(want.iter()).position(|(a, b)| a != b).unwrap_or(got.len().min(want.len()));
+            let lower = text.to_ascii_lowercase();
+            let detail = format!(
+                "element handlers {names:?} (tag-scan mode between them) saw start tag #{i} {:?}, the reference tokenizer has {:?} (cuts {:?}); doc={}",
+                got.get(i),
+                want.get(i),
+                sc.cuts,
                 show(&sc.doc)
             );
             if let Some(p) = lower.find("<col") {
